@@ -391,6 +391,9 @@ def gen_cases(tier, seed):
             c["spec"] = 1
         if i % 2 == 0:
             c["rr"] = 1                        # every row read through mem.data[i] after EVERY event
+        if i % 6 == 5 and c["wports"] and c["depth"] > 0:
+            c["reuse"] = ("reset", "second")[(i // 6) % 2]      # run, then start again from the initial state
+            c["g"] = "rand:" + c["reuse"]
         rnd.append(c)
     rnd += _stale_cases(rng, 1200 if thorough else 150)
     for i in range(1500 if thorough else 160):  # the emitted RTLIL run under Model/RtlilSem.v
@@ -562,9 +565,24 @@ def _simulate(c):
         for r in rowvals:
             rows.append(_enc(c, ctx.get(r)))
 
+    raw0 = [int(v) for v in mem.data._init._raw]     # the declared initial contents, before anything runs
     sim = Simulator(m)
     sim.add_testbench(tb)
     sim.run()
+    reuse = c.get("reuse")
+    if reuse:
+        # the same design started from its initial state AGAIN after a simulation that wrote to the memory: through
+        # Simulator.reset(), or in a second Simulator on the same objects.  The model answers the history from the
+        # DECLARED initial contents, so rows left over from the first run (or a changed Memory.init) show up here.
+        del trace[:], rows[:]
+        if reuse == "reset":
+            sim.reset()
+        else:
+            sim = Simulator(m)
+            sim.add_testbench(tb)
+        sim.run()
+        if [int(v) for v in mem.data._init._raw] != raw0:
+            return [-7] + list(trace) + _pack_rows(rows)      # the declared contents themselves were overwritten
     # leading 1: the generator claims that every event satisfies ev_ok; the model computes that flag itself
     return [1] + list(trace) + _pack_rows(rows)
 
